@@ -5,6 +5,7 @@
 PID="$1"; NAME="${3:-$PID}"; OUT="${2:-/tmp/wt/${PID}_out}"
 DEST=/verif/seeded/$NAME
 WT=/tmp/wt/confirm_$NAME
+SRC_WT="${SRC_WT:-/tmp/wt/$PID}"
 mkdir -p "$DEST"
 cp "$OUT"/patch.diff "$DEST"/patch.diff
 for f in "$OUT"/demo*.py; do cp "$f" "$DEST"/; done
@@ -15,7 +16,7 @@ git -C /repo worktree add -q --detach "$WT" HEAD || exit 3
 cd "$WT" || exit 3
 run_demo() { case "$DEMO" in *_test.py) PYTHONPATH=$WT timeout 300 /venv/bin/python -m pytest -q -p no:cacheprovider "$DEMO" >/tmp/wt/demo_$NAME.log 2>&1;; *) PYTHONPATH=$WT timeout 300 /venv/bin/python "$DEMO" >/tmp/wt/demo_$NAME.log 2>&1;; esac; echo $?; }
 # demos written by agents may hard-code their own worktree path: rewrite to this one
-sed -i "s#/tmp/wt/$PID\b#$WT#g" "$DEMO"
+sed -i "s#$SRC_WT\b#$WT#g" "$DEMO"
 RC0=$(run_demo)
 if ! git apply "$DEST"/patch.diff; then echo "PATCH DOES NOT APPLY"; RCA=applyfail; else RCA=ok; fi
 RC1=$(run_demo)
@@ -26,7 +27,7 @@ if [ "$RCA" = ok ] && [ -z "$SKIP_SUITE" ]; then
   SUITE=$(tail -1 /tmp/wt/suite_$NAME.log | cut -c1-200)
   FAILED=$(grep -E "^(FAILED|ERROR) pynetdicom" /tmp/wt/suite_$NAME.log | cut -c1-160 | head -8 | tr '\n' ';')
 fi
-sed -i "s#$WT#/tmp/wt/$PID#g" "$DEMO"
+sed -i "s#$WT#$SRC_WT#g" "$DEMO"
 cd /verif
 git -C /repo worktree remove --force "$WT"
 python3 - "$DEST" "$PID" "$RC0" "$RC1" "$RCA" "$SUITE" "$FAILED" "$TAIL1" <<'PY'
